@@ -665,6 +665,72 @@ def svf_section(loader):
             f"Definition gen_svf_regrid_exp_ac (old new : bool) : bool :=\n  match old, new with\n{arms}\n  end.\n")
 
 
+# ------------------------------------------------------------------------------------------------
+# logv: the `spacing` it hands to compose_svfs (distance of neighbouring grid points in normalised coordinates)
+# ------------------------------------------------------------------------------------------------
+def logv_spacing_section(flow_mod, img):
+    sizes = list(range(2, 10))
+    table = {True: {}, False: {}}
+    for ac in (True, False):
+        for n in sizes:
+            for D in (2, 3):
+                shape = (2, n) if D == 2 else (2, 3, n)           # x axis has n samples
+                f = sym((1, D) + shape, "f")
+                calls = []
+
+                def bch(u, v, mode=None, sigma=None, spacing=None, stride=None, bch_terms=3):
+                    calls.append({"mode": mode, "sigma": sigma, "spacing": spacing, "stride": stride, "bch_terms": bch_terms})
+                    return v
+                with patched(flow_mod, "compose_svfs", bch), patched(flow_mod, "expv", lambda v, **k: v), \
+                        patched(flow_mod, "compose_flows", lambda a, b, **k: b):
+                    flow_mod.logv(f, num_iters=1, bch_terms=2, sigma=Fraction(7, 10), align_corners=ac)
+                    explicit = []
+                    flow_mod.logv(f, num_iters=1, bch_terms=2, sigma=None, spacing=Fraction(3, 2), align_corners=ac)
+                c0, c1 = calls
+                if c0["bch_terms"] != 2 or c0["sigma"] != Fraction(7, 10) or c0["mode"] is not None or c0["stride"] is not None:
+                    raise TraceError(f"logv does not forward bch_terms / sigma to compose_svfs: {c0}")
+                if c1["spacing"] != Fraction(3, 2):
+                    raise TraceError("logv does not forward an explicit spacing to compose_svfs")
+                sp = c0["spacing"]
+                if sp is None:
+                    val = None
+                else:
+                    sp = [E.const(x).value() for x in sp]
+                    want_len = D
+                    if len(sp) != want_len:
+                        raise TraceError("logv spacing has the wrong number of axes")
+                    others = sp[1:]
+                    ref = [Fraction(2, m) for m in reversed(shape)][1:]
+                    val = sp[0]
+                    # the other axes (sizes 2, 3) must follow the same rule as the x axis of the same size
+                    for m, o in zip(list(reversed(shape))[1:], others):
+                        if m in table[ac] and table[ac][m] is not None and table[ac][m] != o:
+                            raise TraceError("logv spacing: axes of equal size get different spacings")
+                if table[ac].setdefault(n, val) != val:
+                    raise TraceError("logv spacing depends on D")
+    # spacing None = default of flow_derivatives: verified to be 2 / (n - 1) along x for every n of the table
+    for n in sizes:
+        flow = sym((1, 2, 3, n), "f")
+        a = flow_mod.flow_derivatives(flow, which=["du/dx"], mode="forward_central_backward")["du/dx"]
+        b = flow_mod.flow_derivatives(flow, which=["du/dx"], mode="forward_central_backward",
+                                      spacing=st.Tensor(st._lift_array([Fraction(2, n - 1), Fraction(1)])))["du/dx"]
+        env = {v_.args[0]: Fraction(i % 7 - 3, 2) for i, v_ in enumerate(flow.a.reshape(-1))}
+        for x, y in zip(a.a.reshape(-1), b.a.reshape(-1)):
+            if fr_eval(x, env) != fr_eval(y, env):
+                raise TraceError("default spacing of flow_derivatives is not 2 / (n - 1)")
+
+    def q(fr):
+        return f"(({fr.numerator}) # {fr.denominator})%Q"
+    lines = ["From Coq Require Import QArith.",
+             "(* logv(flow, spacing=None, align_corners=ac): distance of neighbouring samples (normalised coordinates) used for the derivatives of",
+             "   its BCH brackets on an axis with n samples; `None` handed to compose_svfs = default of flow_derivatives = 2/(n-1), verified *)",
+             "Definition gen_logv_bch_spacing (ac : bool) (n : Z) : Q :="]
+    arms_t = " ".join(f"| {n}%Z => {q(table[True][n] if table[True][n] is not None else Fraction(2, n - 1))}" for n in sizes)
+    arms_f = " ".join(f"| {n}%Z => {q(table[False][n] if table[False][n] is not None else Fraction(2, n - 1))}" for n in sizes)
+    lines.append(f"  if ac then match n with {arms_t} | _ => 0%Q end\n  else match n with {arms_f} | _ => 0%Q end.")
+    return "\n".join(lines) + "\n"
+
+
 def generate(loader):
     flow_mod = loader.load("deepali.core.flow")
     img = loader.load("deepali.core.image")
